@@ -11,7 +11,7 @@
    T2 harness.  Hence the suffix _partial on the summary theorem.
    Statements only; closed by [exact] of lemmas of ConcInv.v. *)
 From Coq Require Import NArith List.
-From LC Require Import Conc ConcInv.
+From LC Require Import gen.HashGen Core Api InvDefs ArrLemmas Refine Conc ConcInv ConcLin.
 Import ListNotations.
 
 Theorem C01_validated_current : forall hp0 rc0 arrs0, arrs_ok arrs0 -> forall s, reachable hp0 rc0 arrs0 s ->
@@ -59,3 +59,135 @@ Proof. exact tail_race_trace_rejected. Qed.
 Example C01_ex_validated_reachable : exists s, replay (ginit 3 0 [2]) [(0, BEGIN 1); (0, LD_RC 0); (0, LD_HP 3); (0, CURLOCKS 0);
    (0, LOCKREQ 0 1); (0, LOCKED 0 1); (0, LD_RC 0)] = Some s /\ validated (thr s 0).
 Proof. eexists. split; [vm_compute; reflexivity|exact I]. Qed.
+(* ---- generated statements (tools/mkprops.py): the composition (ConcLin.v) ---- *)
+(* The COMBINED system (ConcLin.cstep): protocol state + the shared table + per-thread operation in flight +
+   history.  A thread in a validated critical section performs its operation's data step with the bucket
+   indices computed from ITS SNAPSHOT of the table size ([lin_data c hash (sh sn)]); resizes replace the table
+   under all locks preserving the contents.  [linearizable_by_points]: (a) the linearization events, in order,
+   are a legal sequential execution of the map specification ending in the table's contents; (b),(c) every
+   response is preceded by exactly one linearization event of that operation, itself preceded by its
+   invocation, with nothing of that thread in between.  Covered: find / contains / update / update_fn / erase /
+   erase_fn (DLookup), insert / insert_or_assign / upsert / uprase_fn when no expansion is needed in the
+   linearizing section (DUprase), resizes that leave the table fully migrated.  Not covered (DESIGN 6.1): the
+   deferred-migration state inside the combined system, operations ending in a policy exception, and the
+   multi-section displacement of insert is one atomic data step here (its hops are contents-preserving by
+   C02_displacement_preserves_contents). *)
+
+Theorem C01_linearizable_by_linearization_points :
+  forall (c : config) (hash : N -> N),
+  cfg_ok c ->
+  forall (hp0 rc0 : N) (arrs0 : list nat) (t0 : table),
+  arrs_ok arrs0 ->
+  good c hash t0 ->
+  bhp (cur t0) = hp0 ->
+  forall s : cstate,
+  creach c hash hp0 rc0 arrs0 t0 s ->
+  legal (holds (cur t0)) (lins (hist s)) (holds (cur (tbl s))) /\
+  (forall (t : tid) (op : dop) (r : dres) (h1 h2 : list hev),
+  hist s = h1 ++ HRes t op r :: h2 ->
+  exists ha hb hc : list hev,
+  h1 = ha ++ HInv t op :: hb ++ HLin t op r :: hc /\ quiet t hb /\ quiet t hc /\ tphase t ha PIdle) /\
+  (forall (t : tid) (op : dop) (r : dres) (h1 h2 : list hev),
+  hist s = h1 ++ HLin t op r :: h2 ->
+  exists ha hb : list hev, h1 = ha ++ HInv t op :: hb /\ quiet t hb /\ tphase t ha PIdle).
+Proof. exact linearizable_by_points. Qed.
+Print Assumptions C01_linearizable_by_linearization_points.
+
+Theorem C01_snapshot_of_a_linearizing_thread_is_current :
+  forall (c : config) (hash : N -> N),
+  cfg_ok c ->
+  forall (hp0 rc0 : N) (arrs0 : list nat) (t0 : table),
+  arrs_ok arrs0 ->
+  good c hash t0 ->
+  bhp (cur t0) = hp0 ->
+  forall (s : cstate) (t : tid) (sn : snap) (sa x : nat) (r : list nat),
+  creach c hash hp0 rc0 arrs0 t0 s -> thr (pr s) t = CS sn sa (x :: r) -> sh sn = hashpower (tbl s).
+Proof. exact lin_snapshot_current. Qed.
+Print Assumptions C01_snapshot_of_a_linearizing_thread_is_current.
+
+Theorem C01_linearizing_step_is_the_sequential_operation :
+  forall (c : config) (hash : N -> N),
+  cfg_ok c ->
+  forall (hp0 rc0 : N) (arrs0 : list nat) (t0 : table),
+  arrs_ok arrs0 ->
+  forall (s : cstate) (t : tid) (sn : snap) (sa x : nat) (r : list nat) (op : dop)
+  (tbl' : table) (rs : dres),
+  CInv c hash hp0 rc0 arrs0 t0 s ->
+  thr (pr s) t = CS sn sa (x :: r) ->
+  lin_data c hash (sh sn) (tbl s) op = Some (tbl', rs) ->
+  sh sn = hashpower (tbl s) /\
+  good c hash tbl' /\
+  bhp (cur tbl') = bhp (cur (tbl s)) /\
+  spec_step (holds (cur (tbl s))) op rs (holds (cur tbl')) /\
+  match op with
+  | DLookup k g =>
+  match rs with
+  | RLookup o => lookup_fn c hash false (tbl s) k g = (tbl', o)
+  | RUprase _ _ => False
+  end
+  | DUprase k v g =>
+  match rs with
+  | RLookup _ => False
+  | RUprase i lg => exists p : N * N, uprase_gen c hash false (tbl s) k v g = (tbl', inr (i, lg, p))
+  end
+  end.
+Proof. exact lin_step_spec. Qed.
+Print Assumptions C01_linearizing_step_is_the_sequential_operation.
+
+Theorem C01_completed_operation_linearized_between_invocation_and_response :
+  forall (c : config) (hash : N -> N),
+  cfg_ok c ->
+  forall (hp0 rc0 : N) (arrs0 : list nat) (t0 : table),
+  arrs_ok arrs0 ->
+  good c hash t0 ->
+  bhp (cur t0) = hp0 ->
+  forall (s : cstate) (t : tid) (op : dop) (r : dres) (h1 h2 : list hev),
+  creach c hash hp0 rc0 arrs0 t0 s ->
+  hist s = h1 ++ HRes t op r :: h2 ->
+  exists ha hb hc : list hev,
+  hist s = ha ++ HInv t op :: hb ++ HLin t op r :: hc ++ HRes t op r :: h2 /\
+  quiet t hb /\ quiet t hc /\ lins (hist s) = lins (ha ++ hb) ++ (op, r) :: lins hc ++ lins h2.
+Proof. exact completed_op_linearized. Qed.
+Print Assumptions C01_completed_operation_linearized_between_invocation_and_response.
+
+Theorem C01_present_key_never_reported_absent :
+  forall (c : config) (hash : N -> N),
+  cfg_ok c ->
+  forall (hp0 rc0 : N) (arrs0 : list nat) (t0 : table),
+  arrs_ok arrs0 ->
+  good c hash t0 ->
+  bhp (cur t0) = hp0 ->
+  forall (s : cstate) (l1 : list (dop * dres)) (k : N) (g : Z -> Z * bool) (l2 : list (dop * dres)),
+  creach c hash hp0 rc0 arrs0 t0 s ->
+  lins (hist s) = l1 ++ (DLookup k g, RLookup None) :: l2 ->
+  forall m : contents, legal (holds (cur t0)) l1 m -> forall v : Z, ~ m k v.
+Proof. exact lookup_none_absent. Qed.
+Print Assumptions C01_present_key_never_reported_absent.
+
+Theorem C01_insert_reports_inserted_iff_absent :
+  forall (c : config) (hash : N -> N),
+  cfg_ok c ->
+  forall (hp0 rc0 : N) (arrs0 : list nat) (t0 : table),
+  arrs_ok arrs0 ->
+  good c hash t0 ->
+  bhp (cur t0) = hp0 ->
+  forall (s : cstate) (l1 : list (dop * dres)) (k : N) (v : Z) (g : Z -> bool -> option (Z * bool))
+  (i : bool) (lg : list rv) (l2 : list (dop * dres)),
+  creach c hash hp0 rc0 arrs0 t0 s ->
+  lins (hist s) = l1 ++ (DUprase k v g, RUprase i lg) :: l2 ->
+  forall m : contents, legal (holds (cur t0)) l1 m -> i = true <-> (forall v0 : Z, ~ m k v0).
+Proof. exact uprase_inserted_iff_absent. Qed.
+Print Assumptions C01_insert_reports_inserted_iff_absent.
+
+Theorem C01_resize_excludes_critical_sections :
+  forall (c : config) (hash : N -> N),
+  cfg_ok c ->
+  forall (hp0 rc0 : N) (arrs0 : list nat) (t0 : table),
+  arrs_ok arrs0 ->
+  good c hash t0 ->
+  bhp (cur t0) = hp0 ->
+  forall (s : cstate) (t : tid) (first : nat) (d : bool),
+  creach c hash hp0 rc0 arrs0 t0 s ->
+  thr (pr s) t = AH first d -> forall u : tid, ~ validated (thr (pr s) u).
+Proof. exact resize_excludes_critical_sections. Qed.
+Print Assumptions C01_resize_excludes_critical_sections.
